@@ -23,6 +23,9 @@
     src/client.rs:771-777   startup OK => [ClientStats::new(process_id, ..)], nothing registered yet = [Login c p true]
                             (wrong password, unknown pool, pool down: [startup] returns Err, no ClientStats)
                                                                                                     = [Login c p false]
+    src/client.rs           [Client::cancel]: CancelRequest connection, stats = [ClientStats::default()]; [handle()]
+                            looks the key up in the client/server map, forwards via [Server::cancel] (a bare TCP
+                            connection, no Server object, no stats) and returns before [register]      = [CancelConn pid]
     src/client.rs:879       [self.stats.register(..)] first thing in [handle()]                     = [HandleStart]
     src/client.rs           [self.stats.waiting()] right before [pool.get]                           = [CheckoutStart]
     src/pool.rs (b38aae6)   [while !candidates.is_empty() { client_stats.waiting(); ...]: waiting() runs at the
@@ -124,8 +127,16 @@ Fixpoint mem (k : nat) (l : list nat) : bool :=
 Definition reg_add (k : nat) (l : list nat) : list nat := if mem k l then l else k :: l.
 Definition reg_del (k : nat) (l : list nat) : list nat := filter (fun x => negb (x =? k)) l.
 
+(** A CancelRequest connection is a pseudo-client built by [Client::cancel] (client.rs): its stats are
+    [ClientStats::default()], whose client_id is 0 — NOT the process id the request names.  [handle()] returns
+    before [register] ([cancel_mode]); [Drop for Client] (and the entrypoint, on Err) call [disconnect()] on that
+    id.  A real client's id is a random i32; the value 0 (2^-32) is assumed away like collisions: [Login]
+    requires an id different from it. *)
+Definition cancel_stats_id : nat := 0.
+
 Inductive op : Type :=
 | Login (c p : nat) (ok : bool)
+| CancelConn (pid : nat)
 | HandleStart (c : nat)
 | CheckoutStart (c : nat)
 | CandidateTry (c : nat)
@@ -154,7 +165,8 @@ Definition is_login (s : sstate) : bool := match s with SLogin => true | _ => fa
 (** When can the call site be reached. *)
 Definition enabled (cf : cfg) (t : st) (o : op) : bool :=
   match o with
-  | Login c _ _ => is_phase (c_phase (cl t c)) PNone
+  | Login c _ _ => is_phase (c_phase (cl t c)) PNone && negb (c =? cancel_stats_id)
+  | CancelConn _ => true
   | HandleStart c => is_phase (c_phase (cl t c)) PLogged
   | CheckoutStart c => let x := cl t c in
       is_phase (c_phase x) PHandle && negb (c_chk x) && is_none (c_held x) && negb (c_pool x =? 0)
@@ -203,6 +215,9 @@ Definition apply (cf : cfg) (t : st) (o : op) : st :=
   | Login c p ok =>
       mkSt (upd (cl t) c (mkC p (if ok then PLogged else PGone) false false None CIdle 0 0 0)) (c :: cids t)
            (sv t) (sids t) (creg t) (sreg t) (at_ t)
+  | CancelConn pid =>
+      (* no register; every exit runs Drop for Client: disconnect() of the pseudo-client's OWN stats id *)
+      mkSt (cl t) (cids t) (sv t) (sids t) (reg_del cancel_stats_id (creg t)) (sreg t) (at_ t)
   | HandleStart c =>
       let x := cl t c in
       mkSt (upd (cl t) c (mkC (c_pool x) PHandle false false None CIdle (c_xact x) (c_query x) (c_err x))) (cids t)
@@ -357,6 +372,10 @@ Fixpoint run_samples (cf : cfg) (np : nat) (t : st) (segs : list (list op)) :=
 
 (** Before /repo ca5e3a4 a panic skipped every [stats.disconnect()]: the row stayed. *)
 Definition exit_panic_old (t : st) (c : nat) : st := exit_client t c false 0.
+(** Seeded defect class (never in /repo's history): [Client::cancel] building the pseudo-client's stats with the
+    process id it was asked to cancel: dropping it unregisters the TARGET. *)
+Definition cancel_conn_bad (t : st) (pid : nat) : st :=
+  mkSt (cl t) (cids t) (sv t) (sids t) (reg_del pid (creg t)) (sreg t) (at_ t).
 (** Before /repo b38aae6 [waiting()] ran once, before the candidate loop: a later iteration started in
     whatever state the failed candidate had left. *)
 Definition candidate_try_old (t : st) (c : nat) : st :=
